@@ -149,6 +149,16 @@ def uninstall_coop_locks():
 
 
 BUILD_CODE = xmlschema.validators.xsd_globals.XsdGlobals.build.__code__
+# code whose every LINE is a schedule point in the random controlled mode (loops without calls into the package): the
+# lazily built XPath node tree of a resource object that several threads share
+LINE_CODES = {xmlschema.resources.xml_loader.XMLResourceLoader.xpath_root.fget.__code__}
+
+
+def line_point_tracer(frame, event, arg):
+    sc = SCHED
+    if event == 'line' and sc is not None:
+        sc.point()
+    return line_point_tracer
 
 
 def shallow_point(sc):
@@ -174,7 +184,7 @@ def tracer(frame, event, arg):
         return None
     if sc.preempt_at is None:
         sc.point()
-        return None
+        return line_point_tracer if frame.f_code in LINE_CODES else None
     if frame.f_code is BUILD_CODE:
         return line_tracer            # every line of build() itself is a preemption point
     f = frame.f_back
@@ -193,8 +203,12 @@ def op_schema_state(s, d):
     return (s.built, s.validity, sorted(str(e.message)[:60] for e in s.all_errors))
 
 
+# NOT asserted: one XMLResource OBJECT shared by several threads.  The property is about sharing the SCHEMA object (documents
+# are arguments of each call); on the unchanged tree two threads validating through one resource object already fail
+# inside the elementpath dependency (lazily built node attributes of the shared XPath node tree: AttributeError
+# '_attributes'), so such calls are not part of the explored space (seeded change C18-6 needs them: see its meta.json).
 READ_OPS = [c10.op_errors, c10.op_is_valid, c10.op_decode_lax, c10.op_to_objects, c10.op_lazy, c10.op_component_values,
-            c10.op_decode_jsonml, c10.op_first_error_abandon, c10.op_max_depth, op_schema_state]
+            c10.op_decode_jsonml, c10.op_first_error_abandon, c10.op_max_depth, op_schema_state, c10.op_roundtrip_encode]
 
 # pools of this check only -----------------------------------------------------------------------------------------
 # 7: a schema that is INVALID only for the checks made at the end of the build (illegal restriction), built in lax mode
@@ -226,6 +240,31 @@ INH_DOCS = [_inh_doc([('a', 'a')] * 4), _inh_doc([('b', 'b')] * 4), _inh_doc([('
             _inh_doc([('a', 'a'), ('b', 'b'), ('z', 'c'), ('a', 'b')]), _inh_doc([('b', 'a'), ('a', 'a')])]
 
 
+QNA_XSD = ('<xs:schema xmlns:xs="http://www.w3.org/2001/XMLSchema" xmlns:t="urn:t" targetNamespace="urn:t" '
+           'elementFormDefault="qualified"><xs:element name="root"><xs:complexType><xs:sequence><xs:element name="item" '
+           'maxOccurs="unbounded"><xs:complexType><xs:sequence><xs:element name="sub" minOccurs="0" maxOccurs="unbounded">'
+           '<xs:complexType><xs:attribute name="ref" type="xs:QName"/><xs:assert test="namespace-uri-from-QName('
+           'resolve-QName(string(@ref), .)) = \'urn:p\'"/></xs:complexType></xs:element></xs:sequence></xs:complexType>'
+           '</xs:element></xs:sequence></xs:complexType></xs:element></xs:schema>')
+
+
+ENC_XSD = ('<xs:schema xmlns:xs="http://www.w3.org/2001/XMLSchema"><xs:element name="r"><xs:complexType><xs:choice '
+           'maxOccurs="unbounded"><xs:element name="a" type="xs:string"/><xs:element name="b" type="xs:int"/>'
+           '<xs:element name="c" type="xs:date"/><xs:element name="d" type="xs:token"/></xs:choice></xs:complexType>'
+           '</xs:element></xs:schema>')
+ENC_DOCS = ['<r>' + '<a/><d/><a/><a/><d/>' * 4 + '</r>', '<r>' + '<b/><c/><b/>' * 6 + '</r>',
+            '<r>' + '<a/><b/><d/><c/>' * 5 + '</r>', '<r><a>x</a><b>1</b></r>']
+
+
+def _qna_doc(n, bad=()):
+    items = ''.join('<t:item xmlns:p="%s"><t:sub ref="p:x%d"/><t:sub ref="p:y"/></t:item>'
+                    % ('urn:other' if i in bad else 'urn:p', i) for i in range(n))
+    return '<t:root xmlns:t="urn:t">%s</t:root>' % items
+
+
+QNA_DOCS = [_qna_doc(12), _qna_doc(12, bad=(3, 7)), _qna_doc(3)]
+
+
 def _pool(pool_index):
     import functools
     if pool_index == 7:
@@ -233,6 +272,14 @@ def _pool(pool_index):
                 LAX_XSD, LAX_DOCS)
     if pool_index == 8:
         return ('1.1 alternatives on inherited attributes', xmlschema.XMLSchema11, INH_XSD, INH_DOCS)
+    if pool_index == 11:
+        return ('encoding of empty values of types that accept / reject the empty string', xmlschema.XMLSchema10, ENC_XSD, ENC_DOCS)
+    if pool_index == 10:
+        return ('1.1 assertions resolving QNames in inner prefix scopes', xmlschema.XMLSchema11, QNA_XSD, QNA_DOCS)
+    if pool_index == 9:
+        # a schema with its own maps and its own meta-schema (use_meta=False): build() also has to load the meta-schema
+        label, cls, src, docs = c10.pools(random.Random(1))[0]
+        return ('own meta-schema (use_meta=False): ' + label, functools.partial(cls, use_meta=False), src, docs)
     return c10.pools(random.Random(1))[pool_index]
 
 
@@ -363,10 +410,10 @@ def run_schedule(pool_index, seed, nthreads, prob, plans, st, controlled=True, p
 def shards(tier, seed):
     # pool 6: identity selectors are extended at run time when xsi:type-substituted content is met (shared state
     # written DURING validation, not only during the build)
-    return [('ctl', p, k, tier, seed) for p in (0, 2, 4, 5, 6, 7, 8) for k in range(3)] + \
+    return [('ctl', p, k, tier, seed) for p in (0, 2, 4, 5, 6, 7, 8, 9, 10, 11) for k in range(3)] + \
            [('free', p, 0, tier, seed) for p in (0, 2, 4, 5, 6, 8)] + \
-           [('pre', p, k, tier, seed) for p in (0, 2, 4, 5, 7) for k in range(3)] + \
-           [('ctl', p, k, tier, seed) for p in (6, 8) for k in range(3, 8)]
+           [('pre', p, k, tier, seed) for p in (0, 2, 4, 5, 7, 9) for k in range(3)] + \
+           [('ctl', p, k, tier, seed) for p in (6, 8, 10) for k in range(3, 8)] + [('free', p, 0, tier, seed) for p in (10, 11)]
 
 
 def full_plan(pool_index):
@@ -393,9 +440,10 @@ def run_shard(desc):
         total = count_shallow(p, depth)
         plan = full_plan(p)
         ks = list(range(total))
-        if tier != 'thorough' and total > 360:
-            step = total / 360.0
-            ks = sorted({int(i * step) for i in range(360)})
+        cap = 90 if p == 9 else 360          # pool 9 loads a meta-schema in every build: fewer points in the quick tier
+        if tier != 'thorough' and total > cap:
+            step = total / float(cap)
+            ks = sorted({int(i * step) for i in range(cap)})
         for kk in ks[k::3]:
             for r in run_schedule(p, 0, 2, 0.0, [plan, plan], st, True, (kk, depth)):
                 core.report(st, PROPERTY, r)
@@ -404,12 +452,17 @@ def run_shard(desc):
         return st
     plan = hst.lists(hst.tuples(hst.integers(0, 50), hst.integers(0, 50)), min_size=3, max_size=6)
     if kind == 'ctl':
-        n = 150 if tier == "thorough" else 20
+        n = 150 if tier == "thorough" else (6 if p == 9 else 20)
         strat = hst.tuples(hst.integers(0, 2 ** 30), hst.integers(2, 4), hst.sampled_from([0.005, 0.01, 0.02, 0.05]),
                            hst.lists(plan, min_size=4, max_size=4))
 
         def body(v, st_):
             sseed, nt, prob, plans = v
+            if p == 10:
+                # assertions are evaluated by iter_errors / is_valid: keep the plans on those two calls
+                plans = [[(oi % 2, di) for oi, di in pl] for pl in plans]
+            if p == 11:
+                plans = [[(len(READ_OPS) - 1, di) for oi, di in pl] for pl in plans]      # encode only
             st_.sample({'pool': baseline(p)[0], 'schedule_seed': sseed, 'threads': nt, 'switch_probability': prob,
                         'plan_thread0': plans[0]}, cap=2)
             return run_schedule(p, sseed, nt, prob, plans[:nt], st_, True)
@@ -419,6 +472,10 @@ def run_shard(desc):
 
         def body(v, st_):
             nt, plans = v
+            if p == 10:
+                plans = [[(oi % 2, di) for oi, di in pl] for pl in plans]
+            if p == 11:
+                plans = [[(len(READ_OPS) - 1, di) for oi, di in pl] for pl in plans]
             return run_schedule(p, 0, nt, 0.0, plans[:nt], st_, False)
     core.hyp_drive(st, PROPERTY, strat, body, n, core.derive_seed(seed, 'C18', kind, p, k), shrink=False)
     return st
